@@ -19,7 +19,15 @@ callsite exists, so an early return before an operand was asked changes what the
 (Stack/Model.v, `FEnv`) describes the EnvFilter's state as a function of the spans its layer accepted, which is right exactly when
 every operand is told: `or_asks_both` (both operands of `Or` are asked before anything is decided), `and_skips_only_after_never`
 (`And` asks `a`, and skips `b` only when `a` said `never` - then the conjunction never accepts the callsite anyway), `not_asks`.
-Property C07 needs all three; Stack/Main.v proves `operands_told` from the generated values.  main(repo, None) -> (text of coq/gen/Gen_stack.v, unrecognised list)."""
+Property C07 needs all three; Stack/Main.v proves `operands_told` from the generated values.
+
+Fourth group (seeded change C07-J): `FilterId::new(id: u8)` = `<guard>(id < 64, ..); Self(1 << id as usize)`.  The guard decides what
+happens to the 65th per-layer filter registered on one Registry: `assert!` refuses it (panic while the stack is built) in every
+profile; `debug_assert!` refuses only where debug assertions are compiled in, and in a release-style build the shift amount wraps
+(`1 << 64` = `1 << 0`): filter #64 shares filter #0's bit.  Generated: `gen_filter_id_bound` (the literal compared with),
+`gen_filter_id_bound_checked_in_debug`, `gen_filter_id_bound_checked_in_release`.  Both guard kinds are *recognised* (the flags follow
+the source); Stack/IdBound.v proves from them that every accepted stack has pairwise disjoint masks.  Also read: that
+`Registry::register_filter` is `FilterId::new(self.next_filter_id)` followed by `self.next_filter_id += 1`.  main(repo, None) -> (text of coq/gen/Gen_stack.v, unrecognised list)."""
 import os
 import re
 import sys
@@ -86,6 +94,30 @@ def main(repo, _unused=None):
         unrec.append("Registry::enabled / event_enabled: `if self.has_per_subscriber_filters() { return FilterState::event_enabled(); } true` expected twice, found %d" % len(uses))
     if not re.search(r"fn\s+event_enabled\s*\(\s*\)\s*->\s*bool\s*\{.*?let\s+enabled\s*=\s*this\.enabled\.get\(\)\.any_enabled\(\)\s*;", fsrc, re.S):
         unrec.append("FilterState::event_enabled: `let enabled = this.enabled.get().any_enabled();` not recognised")
+    # ---- FilterId::new: the bound on the number of per-layer filters and the kind of guard that enforces it
+    id_bound, chk_debug, chk_release = None, None, None
+    fid_blocks = list(rsparse.find_blocks(fsrc, r"impl\s+FilterId\s*"))
+    nm = None
+    if len(fid_blocks) != 1:
+        unrec.append("subscriber_filters/mod.rs: `impl FilterId` found %d times" % len(fid_blocks))
+    else:
+        nm = re.search(r"fn\s+new\s*\(\s*id\s*:\s*u8\s*\)\s*->\s*Self\s*\{(.*?)\n    \}", fid_blocks[0][1], re.S)
+        if not nm:
+            unrec.append("FilterId::new(id: u8) -> Self not recognised")
+    if nm:
+        body = re.sub(r"\s+", " ", nm.group(1)).strip()
+        bm = re.fullmatch(r'(assert|debug_assert)!\s*\(\s*id < (\d+)\s*(?:,\s*"[^"]*"\s*)?,?\s*\)\s*; Self\(1 << id as usize\)', body)
+        if not bm:
+            unrec.append("FilterId::new: unexpected body `%s`" % body[:120])
+        else:
+            id_bound = int(bm.group(2))
+            chk_debug = True
+            chk_release = bm.group(1) == "assert"
+    if not re.search(r"fn\s+register_filter\s*\(\s*&mut\s+self\s*\)\s*->\s*FilterId\s*\{\s*let\s+id\s*=\s*FilterId::new\(self\.next_filter_id\)\s*;\s*"
+                     r"self\.next_filter_id\s*\+=\s*1\s*;\s*id\s*\}", ssrc):
+        unrec.append("Registry::register_filter: `let id = FilterId::new(self.next_filter_id); self.next_filter_id += 1; id` not recognised")
+    if not re.search(r"next_filter_id\s*:\s*0\s*,", ssrc):
+        unrec.append("Registry::default: `next_filter_id: 0` not recognised")
     # ---- combinators: who is asked in callsite_enabled
     cpath = os.path.join(repo, "tracing-subscriber", "src", "filter", "subscriber_filters", "combinator.rs")
     flags = {"or_asks_both": None, "and_skips_only_after_never": None, "not_asks": None}
@@ -132,7 +164,8 @@ def main(repo, _unused=None):
     nb = ce_body("Not")
     if nb is not None:
         flags["not_asks"] = nb.count(CALL_A) == 1 and nb.index(CALL_A) <= first_branch(nb) + len("match ")
-    lines = ["(** GENERATED by translators/stack_flags.py from tracing-subscriber/src/subscribe/layered.rs, filter/subscriber_filters/mod.rs and combinator.rs - do not edit. *)",
+    lines = ["(** GENERATED by translators/stack_flags.py from tracing-subscriber/src/subscribe/layered.rs, filter/subscriber_filters/mod.rs, combinator.rs and registry/sharded.rs - do not edit. *)",
+             "From Coq Require Import NArith.",
              "(** [true]: `Layered::new` compares the *collector type parameter* with Registry (finding F81): a pair built by",
              "    `and_then` and added directly to a Registry sets inner_is_registry.  [false]: it compares the inner value's type. *)"]
     lines.append("Definition pair_sees_registry : bool := %s." % ("true" if flag in (True, None) else "false"))
@@ -142,6 +175,11 @@ def main(repo, _unused=None):
     lines.append("(** which operands of And / Or / Not are told about a callsite in `callsite_enabled` (see translators/stack_flags.py) *)")
     for k in ("or_asks_both", "and_skips_only_after_never", "not_asks"):
         lines.append("Definition %s : bool := %s." % (k, "true" if flags[k] else "false"))
+    lines.append("(** `FilterId::new`: ids below [gen_filter_id_bound] get the mask `1 << id`; is a larger id refused (panic) in a build with debug")
+    lines.append("    assertions (debug) / without them (release)?  `assert!`: both; `debug_assert!`: debug only (see translators/stack_flags.py) *)")
+    lines.append("Definition gen_filter_id_bound : N := %d%%N." % (id_bound if id_bound is not None else 0))
+    lines.append("Definition gen_filter_id_bound_checked_in_debug : bool := %s." % ("true" if chk_debug else "false"))
+    lines.append("Definition gen_filter_id_bound_checked_in_release : bool := %s." % ("true" if chk_release else "false"))
     lines.append("Definition gen_stack_unrecognised : list nat := %s." % ("nil" if not unrec else "cons 0 nil"))
     lines.append("Lemma gen_stack_recognised : gen_stack_unrecognised = nil.")
     lines.append("Proof. reflexivity. Qed.")
